@@ -1,4 +1,4 @@
-"""C20 -- completion proposals (clauses R20.1-R20.7)."""
+"""C20 -- completion proposals (clauses R20.1-R20.8)."""
 from __future__ import annotations
 
 import ast
@@ -223,3 +223,8 @@ def check(ctx, res) -> None:
     from .c14 import escape_parity_rule
 
     escape_parity_rule(ctx, res, "R20.7")
+
+    # ---- R20.8 (=R14.10): a keyword recognised by a text slice needs a word boundary in front of it
+    from .common import keyword_word_boundary_rule
+
+    keyword_word_boundary_rule(ctx, res, "R20.8")
